@@ -6,6 +6,9 @@ package main
 //   (hostile.mac  x<msgpack> <tag>)                      macaroon.Decode / DecodeNonce, then every op
 //   (hostile.json x<utf8>    <tag>)                      CaveatSet.UnmarshalJSON (+ Macaroon / Nonce JSON), then every op
 //   (hostile.hdr  x<utf8>    <tag>)                      macaroon.Parse, ParsePermissionAndDischargeTokens, bundle.ParseBundle, ...
+//   (hostile.ticket x<msgpack> <tag>)                    the PLAINTEXT of a third-party ticket: sealed for hKA by the worker, then
+//                                                        macaroon.DischargeTicket, every op on the caveats and the discharge it
+//                                                        returns, and verification of a token that carries the ticket
 //   (hostile.depth x<msgpack> <tag>)                     nesting depth measured by the harness's own scanner (the one that
 //                                                        tags inputs `.over200`) against the model's decoder; no library call
 //   (hostile.rep.cavs x<prefix> x<unit> <n> x<suffix> <tag>)   the input prefix ++ unit^n ++ suffix, run ALONE in a
@@ -33,6 +36,7 @@ import (
 	"encoding/base64"
 	"encoding/hex"
 	"encoding/json"
+	"errors"
 	"fmt"
 	"os"
 	"os/exec"
@@ -134,8 +138,12 @@ type hCtx struct {
 	items      int    // caveats in the decoded value (all nesting levels), 0 if nothing decoded
 	maxOpAlloc uint64 // the most any single operation allocated (beyond 4 KiB per item), and which
 	maxOpName  string
-	nops       int  // operations executed (distribution only)
-	verified   bool // the post-verification round ran (a token with a valid tail verified)
+	lite       bool // inputs of the container-kind sweeps (tags kinds.*, sibling.*: ~2700 inputs that differ only in msgpack
+	// header kinds around one deep chain): the operations added by the generator audit are skipped for them (time)
+	segStart uint64 // allocation counter at the start of the running segment, and the largest segment so far (op, step)
+	segMax   uint64
+	nops     int  // operations executed (distribution only)
+	verified bool // the post-verification round ran (a token with a valid tail verified)
 }
 
 func panicLine(p any) string {
@@ -166,33 +174,82 @@ func heapAllocs() uint64 {
 	return 0
 }
 
+// op runs one library operation isolated under recover and charges what it allocated.
+//
+// An operation that by construction makes several library calls which each work through the whole input (two
+// bundles parsed from one header, verification under six keys, ...) marks the boundaries with c.step(): the
+// figure held against the bound is that of its most expensive SEGMENT, so every single library call stays under
+// the bound of a single call.  Operations without step() are charged as a whole.
+//
+// Error values the operation hands to errUse are rendered after it, each on its own and each under the same
+// bound (a caller logs the error it got: rendering is an operation on the result like any other).
 func (c *hCtx) op(name string, f func()) {
 	c.nops++
-	a0 := heapAllocs()
-	defer func() {
-		d := heapAllocs() - a0
-		// operations that walk the caveats pay a fixed price per CAVEAT whatever its wire size (an HMAC state and
-		// an encoder per caveat in Verify, reflection and small objects in the JSON rendering: 1-4 KB for a
-		// two-byte caveat): linear in the number of items, which the per-byte part of the bound does not cover
-		if per := uint64(c.items) * 4096; d > per {
-			d -= per
-		} else {
-			d = 0
-		}
-		if d > c.maxOpAlloc {
-			c.maxOpAlloc, c.maxOpName = d, name
-		}
-	}()
-	defer func() {
-		if p := recover(); p != nil {
-			c.panics = append(c.panics, name)
-			if c.first == "" {
-				c.first = panicLine(p)
+	hErrs = hErrs[:0]
+	c.segMax, c.segStart = 0, heapAllocs()
+	func() {
+		defer func() {
+			if p := recover(); p != nil {
+				c.panics = append(c.panics, name)
+				if c.first == "" {
+					c.first = panicLine(p)
+				}
 			}
+		}()
+		f()
+	}()
+	c.step()
+	c.charge(name, c.segMax)
+	if len(hErrs) == 0 {
+		return
+	}
+	errs := append([]error(nil), hErrs...)
+	hErrs = hErrs[:0]
+	tname := name + "!errtext"
+	func() {
+		defer func() {
+			if p := recover(); p != nil {
+				c.panics = append(c.panics, tname)
+				if c.first == "" {
+					c.first = panicLine(p)
+				}
+			}
+		}()
+		for _, err := range errs {
+			a0 := heapAllocs()
+			_ = err.Error()
+			_ = errors.Is(err, macaroon.ErrUnauthorized)
+			_ = errors.Is(err, resset.ErrResourceUnspecified)
+			c.charge(tname, heapAllocs()-a0)
 		}
 	}()
-	f()
 }
+
+// step closes a segment of the running operation (see op)
+func (c *hCtx) step() {
+	now := heapAllocs()
+	if d := now - c.segStart; d > c.segMax {
+		c.segMax = d
+	}
+	c.segStart = now
+}
+
+func (c *hCtx) charge(name string, d uint64) {
+	// operations that walk the caveats pay a fixed price per CAVEAT whatever its wire size (an HMAC state and
+	// an encoder per caveat in Verify, reflection and small objects in the JSON rendering: 1-4 KB for a
+	// two-byte caveat): linear in the number of items, which the per-byte part of the bound does not cover
+	if per := uint64(c.items) * 4096; d > per {
+		d -= per
+	} else {
+		d = 0
+	}
+	if d > c.maxOpAlloc {
+		c.maxOpAlloc, c.maxOpName = d, name
+	}
+}
+
+// hErrs: the error values of the running operation (the worker handles one operation at a time)
+var hErrs []error
 
 // field: the first panicking operation (in the fixed operation order), how many further ones, the first message
 func (c *hCtx) field() string {
@@ -277,8 +334,58 @@ var hostileReqs = func() *hReqs {
 	add("flyio.zero", &flyio.Access{})
 	add("dr", r.DischargeRequest())
 	add("dr.empty", &auth.DischargeRequest{})
+	// audit: requests that reach the branches of every caveat kind (each resource field set once, the list-valued
+	// command of length 0 / 3, ids at the ends of their range, action bits no constant names), requests that are
+	// not well-formed, discharge requests with many identities / empty identities / extreme expiries
+	vol, af, mf, mut, lfsc, cl, sm, sa, so := "vol_1", "images", "metadata", "addApp", flyio.FeatureLFSC, "c1", "m1", "a1", "o1"
+	zero, max64 := uint64(0), ^uint64(0)
+	pfx := resset.Prefix("https://storage.fly/bucket/obj")
+	add("flyio.vol", &flyio.Access{OrgID: &one, AppID: &two, Volume: &vol, Action: resset.ActionWrite})
+	add("flyio.appfeat", &flyio.Access{OrgID: &one, AppID: &two, AppFeature: &af, Action: resset.ActionRead})
+	add("flyio.machfeat", &flyio.Access{OrgID: &one, AppID: &two, Machine: &mach, MachineFeature: &mf, Action: resset.ActionControl})
+	add("flyio.mut", &flyio.Access{OrgID: &one, Mutation: &mut, Action: resset.ActionCreate})
+	add("flyio.src", &flyio.Access{OrgID: &one, SourceMachine: &sm, SourceApp: &sa, SourceOrganization: &so, Action: resset.ActionRead})
+	add("flyio.cluster", &flyio.Access{OrgID: &one, Feature: &lfsc, Cluster: &cl, Action: resset.ActionDelete})
+	add("flyio.cmd0", &flyio.Access{OrgID: &one, AppID: &two, Machine: &mach, Command: []string{}, Action: resset.ActionAll})
+	add("flyio.cmd3", &flyio.Access{OrgID: &one, AppID: &two, Machine: &mach, Command: []string{"a", "", "c"}, Action: resset.ActionAll})
+	add("flyio.storage", &flyio.Access{OrgID: &one, StorageObject: &pfx, Action: resset.ActionRead})
+	pfx1 := resset.Prefix("k") // shorter than any prefix a caveat is likely to carry
+	add("flyio.storage.short", &flyio.Access{OrgID: &one, StorageObject: &pfx1, Action: resset.ActionWrite})
+	add("flyio.ids0", &flyio.Access{OrgID: &zero, AppID: &zero, Action: resset.ActionNone})
+	add("flyio.idsmax", &flyio.Access{OrgID: &max64, AppID: &max64, Action: resset.Action(0xffff)})
+	add("flyio.illformed", &flyio.Access{AppID: &two, Machine: &mach, Volume: &vol, Cluster: &cl, Command: []string{"x"}, MachineFeature: &mf})
+	g1 := auth.GoogleUserID{}
+	add("dr.many", &auth.DischargeRequest{
+		Flyio:  []*auth.FlyioAuth{{}, {UserID: max64, OrganizationIDs: []uint64{0, 1, 1, max64}}, {UserID: 1, OrganizationIDs: []uint64{}}},
+		Google: []*auth.GoogleAuth{{}, {HD: "", UserID: &g1, Email: "@"}, {HD: "\xff\x00"}},
+		GitHub: []*auth.GitHubAuth{{}, {OrgIDs: []uint64{0, max64}}},
+		Expiry: time.Date(9999, 12, 31, 23, 59, 59, 0, time.UTC),
+	})
+	add("dr.minexpiry", &auth.DischargeRequest{Flyio: []*auth.FlyioAuth{{UserID: 1}}, Expiry: time.Unix(-1<<62, 0)})
 	return q
 }()
+
+// hOrigReqs: the requests in front of the ones the audit added
+const hOrigReqs = 10
+
+// hFlyioAccs: the typed requests, for the generic macaroon.Validate[A]
+var hFlyioAccs = func() []*flyio.Access {
+	var out []*flyio.Access
+	for _, n := range hostileReqs.order {
+		if a, ok := hostileReqs.accs[n].(*flyio.Access); ok {
+			out = append(out, a)
+		}
+	}
+	return out
+}()
+
+// errUse: what a caller does with an error the library hands back: it keeps it, renders it (log line) and asks what
+// it is.  The value is queued; op renders every queued error after the operation, each under the allocation bound.
+func errUse(err error) {
+	if err != nil {
+		hErrs = append(hErrs, err)
+	}
+}
 
 // walk every caveat at every depth without trusting the library's traversal
 func hWalk(cs []macaroon.Caveat, f func(macaroon.Caveat)) {
@@ -290,15 +397,65 @@ func hWalk(cs []macaroon.Caveat, f func(macaroon.Caveat)) {
 	}
 }
 
+// hTop: the top-level caveats only (an operation that handles each caveat together with what it wraps would be
+// quadratic in the nesting depth if it were applied at every level)
+func hTop(cs []macaroon.Caveat, f func(macaroon.Caveat)) {
+	for _, c := range cs {
+		f(c)
+	}
+}
+
 // csOps: every read operation on a caveat set.  get returns a fresh value per call.
 func csOps(c *hCtx, p string, get func() *macaroon.CaveatSet) {
+	// the operations added by the audit run on the set as decoded and on the set as verified; the round in between
+	// (the same caveats read off the unverified token: prefix t.u.) keeps the original list
+	full := !c.lite && !strings.HasSuffix(p, "t.u.")
+	op := c.op
+	aud := func(name string, f func()) {
+		if full {
+			c.op(name, f)
+		}
+	}
+	// the per-caveat operations of the audit run once per input (on the set as decoded); the requests it added
+	// are put to the verified set as well
+	first := full && !strings.HasSuffix(p, "v.")
+	aud1 := func(name string, f func()) {
+		if first {
+			c.op(name, f)
+		}
+	}
+	_ = op
 	c.op(p+"print", func() { _ = sxCavs(get().Caveats) })
 	c.op(p+"meta", func() {
 		hWalk(get().Caveats, func(cv macaroon.Caveat) {
 			_ = cv.CaveatType()
 			_ = cv.Name()
 			_ = macaroon.IsAttestation(cv)
+			if w, ok := cv.(macaroon.WrapperCaveat); ok {
+				_ = w.Unwrap()
+			}
 		})
+	})
+	// audit: printing proper - the fmt verbs on every decoded caveat and on the set, the caveats that are
+	// themselves errors (auth.Confine*) and the values with a String method
+	aud1(p+"fmt", func() {
+		cs := get()
+		hWalk(cs.Caveats, func(cv macaroon.Caveat) {
+			_ = fmt.Sprintf("%v|%+v|%s", cv, cv, cv)
+			if e, ok := cv.(error); ok {
+				_ = e.Error()
+			}
+			if st, ok := cv.(fmt.Stringer); ok {
+				_ = st.String()
+			}
+			if a, ok := cv.(*resset.Action); ok && a != nil {
+				_ = a.String()
+			}
+			if ar, ok := cv.(*flyio.AllowedRoles); ok && ar != nil {
+				_ = flyio.Role(*ar).String()
+			}
+		})
+		_ = fmt.Sprintf("%v|%+v", cs, *cs)
 	})
 	c.op(p+"get.3p", func() { _ = macaroon.GetCaveats[*macaroon.Caveat3P](get()) })
 	c.op(p+"get.vw", func() { _ = macaroon.GetCaveats[*macaroon.ValidityWindow](get()) })
@@ -308,36 +465,116 @@ func csOps(c *hCtx, p string, get func() *macaroon.CaveatSet) {
 	c.op(p+"get.uid", func() { _ = macaroon.GetCaveats[*auth.FlyioUserID](get()) })
 	c.op(p+"get.unreg", func() { _ = macaroon.GetCaveats[*macaroon.UnregisteredCaveat](get()) })
 	c.op(p+"get.any", func() { _ = macaroon.GetCaveats[macaroon.Caveat](get()) })
-	for _, n := range hostileReqs.order {
+	aud(p+"get.more", func() {
+		cs := get()
+		_ = macaroon.GetCaveats[macaroon.Attestation](cs)
+		_ = macaroon.GetCaveats[*flyio.Commands](cs)
+		_ = macaroon.GetCaveats[*flyio.Clusters](cs)
+		_ = macaroon.GetCaveats[*auth.GoogleUserID](cs)
+		_ = macaroon.GetCaveats[*auth.MaxValidity](cs)
+		_ = macaroon.GetCaveats[*macaroon.BindToParentToken](cs)
+	})
+	for _, n := range hostileReqs.order[:hOrigReqs] {
 		a := hostileReqs.accs[n]
-		c.op(p+"validate."+n, func() { _ = get().Validate(a) })
+		c.op(p+"validate."+n, func() { errUse(get().Validate(a)) })
+	}
+	// audit: the requests added to the pool, five to an operation (one decoded value, one segment per request)
+	for i := hOrigReqs; i < len(hostileReqs.order) && full; i += 5 {
+		names := hostileReqs.order[i:min(i+5, len(hostileReqs.order))]
+		c.op(p+"validate."+names[0]+"+", func() {
+			cs := get()
+			c.step()
+			for _, n := range names {
+				errUse(cs.Validate(hostileReqs.accs[n]))
+				c.step()
+			}
+		})
 	}
 	c.op(p+"validate.multi", func() {
-		_ = get().Validate(hostileReqs.accs["full"], hostileReqs.accs["flyio"], hostileReqs.accs["dr"])
+		errUse(get().Validate(hostileReqs.accs["full"], hostileReqs.accs["flyio"], hostileReqs.accs["dr"]))
 	})
-	c.op(p+"validate.none", func() { _ = get().Validate() })
+	aud(p+"validate.all", func() {
+		all := make([]macaroon.Access, 0, len(hostileReqs.order))
+		for i, n := range hostileReqs.order {
+			if c.items > 200 && i >= 3 {
+				break // the bound has no term for the number of requests: long sets see three
+			}
+			all = append(all, hostileReqs.accs[n])
+		}
+		errUse(get().Validate(all...))
+	})
+	aud(p+"validate.generic", func() {
+		accs := hFlyioAccs
+		if c.items > 200 {
+			accs = accs[:3]
+		}
+		errUse(macaroon.Validate(get(), accs...))
+	})
+	c.op(p+"validate.none", func() { errUse(get().Validate()) })
 	// each caveat on its own, so that one crashing member does not hide the others
-	c.op(p+"prohibits", func() {
+	prohibitsOver := func(names []string, stepPerRequest bool) {
 		var first any
-		hWalk(get().Caveats, func(cv macaroon.Caveat) {
-			for _, n := range []string{"full", "bare", "flyio", "dr"} {
+		cs := get().Caveats
+		for _, n := range names {
+			hWalk(cs, func(cv macaroon.Caveat) {
 				func() {
 					defer func() {
 						if x := recover(); x != nil && first == nil {
 							first = x
 						}
 					}()
-					_ = cv.Prohibits(hostileReqs.accs[n])
+					errUse(cv.Prohibits(hostileReqs.accs[n]))
 				}()
+			})
+			if stepPerRequest {
+				c.step()
 			}
+		}
+		if first != nil {
+			panic(first)
+		}
+	}
+	c.op(p+"prohibits", func() { prohibitsOver([]string{"full", "bare", "flyio", "dr"}, false) })
+	// audit: and against every other request of the pool
+	aud1(p+"prohibits.more", func() {
+		if c.items > 500 {
+			return // the long sets of generator manyRefusing: time
+		}
+		prohibitsOver(hostileReqs.order[4:], true)
+	})
+	c.op(p+"msgpack", func() { _, err := get().MarshalMsgpack(); errUse(err) })
+	c.op(p+"clone", func() { _, err := get().Clone(); errUse(err) })
+	c.op(p+"json", func() { _, err := get().MarshalJSON(); errUse(err) })
+	// audit: every caveat encoded on its own (the set's encoders stop at the first member that fails)
+	aud1(p+"each.encode", func() {
+		var first any
+		hTop(get().Caveats, func(cv macaroon.Caveat) {
+			func() {
+				defer func() {
+					if x := recover(); x != nil && first == nil {
+						first = x
+					}
+				}()
+				one := macaroon.NewCaveatSet(cv)
+				if b, err := one.MarshalMsgpack(); err == nil {
+					_, err = macaroon.DecodeCaveats(b)
+					errUse(err)
+				} else {
+					errUse(err)
+				}
+				_, err := json.Marshal(cv)
+				errUse(err)
+				if jb, err := one.MarshalJSON(); err == nil {
+					var back macaroon.CaveatSet
+					errUse(json.Unmarshal(jb, &back))
+				}
+			}()
+			c.step()
 		})
 		if first != nil {
 			panic(first)
 		}
 	})
-	c.op(p+"msgpack", func() { _, _ = get().MarshalMsgpack() })
-	c.op(p+"clone", func() { _, _ = get().Clone() })
-	c.op(p+"json", func() { _, _ = get().MarshalJSON() })
 	c.op(p+"json.rt", func() {
 		b, err := json.Marshal(get())
 		if err != nil {
@@ -348,16 +585,89 @@ func csOps(c *hCtx, p string, get func() *macaroon.CaveatSet) {
 			return
 		}
 		_, _ = back.MarshalJSON()
-		_ = back.Validate(hostileReqs.accs["full"], hostileReqs.accs["flyio"])
+		errUse(back.Validate(hostileReqs.accs["full"], hostileReqs.accs["flyio"]))
 		_ = macaroon.GetCaveats[*macaroon.ValidityWindow](&back)
 		_, _ = back.MarshalMsgpack()
 	})
-	c.op(p+"scope.org", func() { _, _ = flyio.OrganizationScope(get()) })
+	c.op(p+"scope.org", func() { _, err := flyio.OrganizationScope(get()); errUse(err) })
 	c.op(p+"scope.app", func() { _ = flyio.AppScope(get()) })
 	c.op(p+"scope.cluster", func() { _ = flyio.ClusterScope(get()) })
-	c.op(p+"scope.appsAllowing", func() { _, _, _ = flyio.AppsAllowing(get(), resset.ActionRead) })
-	c.op(p+"scope.userid", func() { _, _ = flyio.DangerousUserID(get()) })
+	c.op(p+"scope.appsAllowing", func() {
+		cs := get()
+		for _, a := range []resset.Action{resset.ActionRead, resset.ActionNone, resset.ActionAll, resset.Action(0xffff)} {
+			_, _, err := flyio.AppsAllowing(cs, a)
+			errUse(err)
+			c.step()
+		}
+	})
+	c.op(p+"scope.userid", func() { _, err := flyio.DangerousUserID(get()); errUse(err) })
 	c.op(p+"maxvalidity", func() { _, _ = auth.GetMaxValidity(get()) })
+	// audit: the decoded caveats handed to the attenuating entry points of ANOTHER, legitimate token (aliasing:
+	// the same caveat values then sit in two tokens) and to the third-party constructor; then the usual round
+	aud1(p+"add.to.legit", func() {
+		cs := get()
+		m, _ := macaroon.Decode(hLegit)
+		c.step()
+		errUse(m.Add(cs.Caveats...))
+		c.step()
+		errUse(m.Add(cs.Caveats...)) // once more: everything is a duplicate now
+		c.step()
+		if b, err := m.Encode(); err == nil {
+			c.step()
+			if m2, err := macaroon.Decode(b); err == nil {
+				c.step()
+				_, err = m2.Verify(hKey, nil, nil)
+				errUse(err)
+			} else {
+				errUse(err)
+			}
+		}
+	})
+	aud1(p+"add3p.with", func() {
+		cs := get()
+		m, _ := macaroon.Decode(hLegit)
+		c.step()
+		if err := m.Add3P(hKA, "https://other.example", cs.Caveats...); err != nil {
+			errUse(err)
+			return
+		}
+		c.step()
+		for _, tk := range m.TicketsForThirdParty("https://other.example") {
+			tcavs, dm, err := macaroon.DischargeTicket(hKA, "https://other.example", tk)
+			errUse(err)
+			c.step()
+			if err == nil {
+				errUse(macaroon.NewCaveatSet(tcavs...).Validate(hostileReqs.accs["dr"], hostileReqs.accs["dr.many"]))
+				c.step()
+				errUse(dm.Add(tcavs...))
+				c.step()
+				_, _ = dm.Encode()
+			}
+		}
+	})
+	// audit: one value used again and again (no fresh decode in between), also after calls that failed
+	aud1(p+"reuse", func() {
+		cs := get()
+		c.step()
+		errUse(cs.Validate(hostileReqs.accs["flyio.cmd3"]))
+		c.step()
+		cl, err := cs.Clone()
+		errUse(err)
+		c.step()
+		_, _ = cs.MarshalJSON()
+		c.step()
+		_ = macaroon.GetCaveats[*resset.IfPresent](cs)
+		errUse(cs.Validate(hostileReqs.accs["dr.many"]))
+		c.step()
+		errUse(cs.Validate(hostileReqs.accs["full"]))
+		c.step()
+		if cl != nil && c.items <= 500 {
+			cs.Caveats = append(cs.Caveats, cl.Caveats...) // the set and its clone spliced together (twice the items)
+			errUse(cs.Validate(hostileReqs.accs["flyio"]))
+			c.step()
+			_, _ = cs.MarshalMsgpack()
+		}
+	})
 }
 
 // the tail a holder of key would compute for this nonce and these caveats (what Verify recomputes)
@@ -425,37 +735,75 @@ func hdrOf(toks ...[]byte) string {
 	return "FlyV1 " + strings.Join(parts, ",")
 }
 
+func hKeysFor(kid []byte) map[string]macaroon.SigningKey {
+	return map[string]macaroon.SigningKey{"": hKey, "legit-kid": hKey, "kid": hKA, string(kid): hKey}
+}
+
 // bunOps: every bundle operation on a header; a fresh bundle per operation
 func bunOps(c *hCtx, p string, hdr string, loc string, kid []byte) {
 	parse := func() *bundle.Bundle {
 		b, _ := bundle.ParseBundleWithFilter(loc, hdr, bundle.KeepAll)
 		return b
 	}
-	ver := bundle.WithKey(kid, hKey, map[string][]macaroon.EncryptionKey{hLoc3: {hKA}})
+	trusted := map[string][]macaroon.EncryptionKey{hLoc3: {hKA}}
+	ver := bundle.WithKey(kid, hKey, trusted)
 	ctx := context.Background()
-	c.op(p+"parse", func() { _, _ = bundle.ParseBundle(loc, hdr) })
-	c.op(p+"parse.flyio", func() { _, _ = flyio.ParseBundle(hdr) })
+	// (t.sbun.: the token built around a decoded caveat set already has a valid tail, so its re-signed twin repeats
+	// the round t.bun.; the operations added by the audit run once)
+	audit := !c.lite && !strings.HasSuffix(p, "t.sbun.")
+	aud := func(name string, f func()) {
+		if audit {
+			c.op(name, f)
+		}
+	}
+	c.op(p+"parse", func() { _, err := bundle.ParseBundle(loc, hdr); errUse(err) })
+	c.op(p+"parse.flyio", func() { _, err := flyio.ParseBundle(hdr); errUse(err) })
+	aud(p+"parse.flyio.filter", func() {
+		b, err := flyio.ParseBundleWithFilter(hdr, bundle.KeepAll)
+		errUse(err)
+		c.step()
+		_ = b.Count(flyio.IsForOrgUnverified(1))
+		c.step()
+		_ = flyio.UUIDs(b).String()
+		_ = flyio.NonceEmails(b).String()
+	})
+	// audit: the bundle as ParseBundle itself returns it (default filter), through the usual round
+	aud(p+"parse.default", func() {
+		b, err := bundle.ParseBundle(loc, hdr)
+		errUse(err)
+		c.step()
+		_ = b.Header()
+		c.step()
+		_, err = b.Verify(ctx, ver)
+		errUse(err)
+		c.step()
+		errUse(b.Error())
+		errUse(b.Validate(hostileReqs.accs["flyio"]))
+		_ = b.Len()
+	})
 	c.op(p+"header", func() {
 		b := parse()
 		_ = b.Header()
 		_ = b.String()
 		_ = b.Len()
 		_ = b.IsEmpty()
-		_ = b.Error()
+		errUse(b.Error())
 	})
 	c.op(p+"tickets", func() {
 		b := parse()
 		_ = b.UndischargedThirdPartyTickets()
 		_ = b.UndischargedTicketsForThirdParty(hLoc3)
 	})
-	c.op(p+"verify", func() { _, _ = parse().Verify(ctx, ver) })
+	c.op(p+"verify", func() { _, err := parse().Verify(ctx, ver); errUse(err) })
 	c.op(p+"verify.validate", func() {
 		b := parse()
-		_, _ = b.Verify(ctx, ver)
-		_ = b.Validate(hostileReqs.accs["full"], hostileReqs.accs["flyio"])
-		_ = b.Validate(hostileReqs.accs["dr"])
+		_, err := b.Verify(ctx, ver)
+		errUse(err)
+		errUse(b.Validate(hostileReqs.accs["full"], hostileReqs.accs["flyio"]))
+		errUse(b.Validate(hostileReqs.accs["dr"]))
+		errUse(b.Validate())
 		_ = b.Header()
-		_ = b.Error()
+		errUse(b.Error())
 	})
 	c.op(p+"verify.expiration", func() {
 		b := parse()
@@ -464,27 +812,119 @@ func bunOps(c *hCtx, p string, hdr string, loc string, kid []byte) {
 		_ = b.Count(flyio.IsForOrg(1))
 		_ = b.Any(bundle.AllowsAccess(hostileReqs.accs["flyio"]))
 	})
+	// audit: other verifiers - several keys (also under the empty key-id), the caching verifier asked twice (the
+	// second bundle is served from the cache), a verifier function of the caller
+	aud(p+"verify.withkeys", func() {
+		b := parse()
+		c.step()
+		_, err := b.Verify(ctx, bundle.WithKeys(hKeysFor(kid), trusted))
+		errUse(err)
+		c.step()
+		errUse(b.Validate(hostileReqs.accs["flyio"]))
+	})
+	aud(p+"verify.cache", func() {
+		vc := bundle.NewVerificationCache(bundle.WithKeys(hKeysFor(kid), trusted), time.Hour, 4)
+		for i := 0; i < 2; i++ {
+			b := parse()
+			c.step()
+			_, err := b.Verify(ctx, vc)
+			errUse(err)
+			c.step()
+			_, err = b.Verify(ctx, vc) // again on the same bundle: its tokens are verification results now
+			errUse(err)
+			c.step()
+			errUse(b.Validate(hostileReqs.accs["flyio"]))
+			c.step()
+			errUse(b.Attenuate(&macaroon.ValidityWindow{NotBefore: 1, NotAfter: 2}))
+			c.step()
+			_ = b.Header()
+			c.step()
+		}
+		vc.Purge()
+	})
+	aud(p+"verify.func", func() {
+		b := parse()
+		c.step()
+		_, err := b.Verify(ctx, bundle.VerifierFunc(func(_ context.Context, perm bundle.Macaroon, diss []bundle.Macaroon) bundle.VerificationResult {
+			return ver.VerifyOne(ctx, perm, diss)
+		}))
+		errUse(err)
+		_ = b.Header()
+	})
 	c.op(p+"attenuate", func() {
 		b := parse()
 		a := resset.ActionRead
-		_ = b.Attenuate(&a, &macaroon.ValidityWindow{NotBefore: 1, NotAfter: 2})
+		errUse(b.Attenuate(&a, &macaroon.ValidityWindow{NotBefore: 1, NotAfter: 2}))
 		_ = b.Header()
 	})
 	c.op(p+"verify.attenuate", func() {
 		b := parse()
 		_, _ = b.Verify(ctx, ver)
 		a := resset.ActionRead
-		_ = b.Attenuate(&a)
-		_ = b.Validate(hostileReqs.accs["full"])
+		errUse(b.Attenuate(&a))
+		errUse(b.Validate(hostileReqs.accs["full"]))
+		_ = b.Header()
+	})
+	// audit: attenuation with the caveats of the bundle's own (unverified) tokens - the same values end up in
+	// several tokens -, a fresh third-party caveat, and nothing at all
+	aud(p+"attenuate.own", func() {
+		b := parse()
+		var own []macaroon.Caveat
+		bundle.ForEach(b, func(m bundle.Macaroon) {
+			if len(own) < 4 {
+				own = append(own, m.UnsafeCaveats().Caveats...)
+			}
+		})
+		if len(own) > 4 {
+			own = own[:4] // the bound has no term for (tokens in the bundle) x (caveats added)
+		}
+		c.step()
+		errUse(b.Attenuate(own...))
+		c.step()
+		_ = b.Header()
+		c.step()
+		errUse(b.Attenuate())
+		c.step()
+		if c3, err := macaroon.NewCaveat3P(hKA, "https://other.example"); err == nil {
+			errUse(b.Attenuate(c3))
+		}
+		c.step()
+		_, err := b.Verify(ctx, ver)
+		errUse(err)
+		c.step()
 		_ = b.Header()
 	})
 	c.op(p+"clone", func() { cl := parse().Clone(); _ = cl.Header() })
 	c.op(p+"discharge", func() {
 		b := parse()
-		_ = b.Discharge(hLoc3, hKA, func(cs []macaroon.Caveat) ([]macaroon.Caveat, error) {
-			_ = macaroon.NewCaveatSet(cs...).Validate(hostileReqs.accs["dr"])
+		errUse(b.Discharge(hLoc3, hKA, func(cs []macaroon.Caveat) ([]macaroon.Caveat, error) {
+			errUse(macaroon.NewCaveatSet(cs...).Validate(hostileReqs.accs["dr"]))
 			return nil, nil
-		})
+		}))
+		_ = b.Header()
+	})
+	// audit: a third party that copies the ticket's caveats onto the discharge, one that refuses, one under the
+	// wrong key; then verification with the discharges just made
+	aud(p+"discharge.more", func() {
+		b := parse()
+		c.step()
+		errUse(b.Discharge(hLoc3, hKA, func(cs []macaroon.Caveat) ([]macaroon.Caveat, error) { return cs, nil }))
+		c.step()
+		_, err := b.Verify(ctx, ver)
+		errUse(err)
+		c.step()
+		_ = b.Header()
+	})
+	aud(p+"discharge.refused", func() {
+		b := parse()
+		errUse(b.Discharge(hLoc3, hKA, func(cs []macaroon.Caveat) ([]macaroon.Caveat, error) {
+			return nil, fmt.Errorf("refused: %w", macaroon.ErrUnauthorized)
+		}))
+		c.step()
+		errUse(b.Discharge(hLoc3, hKey, func(cs []macaroon.Caveat) ([]macaroon.Caveat, error) { return nil, nil }))
+		c.step()
+		errUse(b.Discharge("", nil, func(cs []macaroon.Caveat) ([]macaroon.Caveat, error) { return nil, nil }))
+		c.step()
 		_ = b.Header()
 	})
 	c.op(p+"select", func() {
@@ -504,38 +944,189 @@ func bunOps(c *hCtx, p string, hdr string, loc string, kid []byte) {
 			_ = m.UnsafeCaveats()
 		})
 	})
+	// audit: the header presented a second time to a live bundle, to a bundle of a legitimate token, in-place
+	// filtering with every stock filter and combinator, the generic helpers, and what the bad tokens say
+	aud(p+"addtokens", func() {
+		b := parse()
+		c.step()
+		errUse(b.AddTokens(hdr))
+		c.step()
+		_, err := b.Verify(ctx, ver)
+		errUse(err)
+		c.step()
+		_ = b.Header()
+	})
+	aud(p+"addtokens.legit", func() {
+		lb, _ := bundle.ParseBundle(hLoc, hdrOf(hLegit))
+		errUse(lb.AddTokens(hdr))
+		c.step()
+		_, err := lb.Verify(ctx, bundle.WithKey([]byte("legit-kid"), hKey, trusted))
+		errUse(err)
+		c.step()
+		_ = lb.UndischargedThirdPartyTickets()
+		c.step()
+		_ = lb.Header()
+	})
+	aud(p+"filter", func() {
+		b := parse()
+		c.step()
+		_ = b.Select(bundle.DefaultFilter(b.IsPermissionToken)).Len()
+		c.step()
+		_ = b.Select(bundle.LocationFilter(loc)).Len()
+		c.step()
+		_ = b.Select(bundle.LocationFilter("")).Len()
+		c.step()
+		_ = b.Select(bundle.And(bundle.IsWellFormedMacaroon, bundle.Not(b.IsPermissionToken))).Len()
+		c.step()
+		_ = b.Select(bundle.Or(bundle.IsMalformedMacaroon, bundle.IsNonMacaroon, bundle.IsFailedMacaroon)).Len()
+		c.step()
+		_ = b.Select(b.WithDischarges(b.IsMissingDischarge(hLoc3))).Len()
+		c.step()
+		_ = b.Count(bundle.KeepNone)
+		c.step()
+		_, _ = b.Verify(ctx, ver)
+		c.step()
+		_ = b.Select(bundle.IsVerificationResult).Header()
+		c.step()
+		b.Filter(bundle.Not(bundle.IsMalformedMacaroon))
+		c.step()
+		_ = b.Header()
+		c.step()
+		b.Filter(bundle.DefaultFilter(b.IsPermissionToken))
+		c.step()
+		_ = b.Header()
+		c.step()
+		errUse(b.Error())
+		c.step()
+		b.Filter(bundle.KeepNone) // the empty bundle
+		c.step()
+		_ = b.Header()
+		c.step()
+		_ = b.String()
+		c.step()
+		_ = b.IsEmpty()
+		c.step()
+		_ = b.Clone().String()
+		c.step()
+		_ = bundle.String[bundle.Token]()
+		c.step()
+		_ = bundle.Header[bundle.Token]()
+		c.step()
+		_, err := b.Verify(ctx, ver)
+		c.step()
+		errUse(err)
+		c.step()
+		errUse(b.Attenuate(&macaroon.ValidityWindow{NotAfter: 1}))
+		c.step()
+		errUse(b.Discharge(hLoc3, hKA, func(cs []macaroon.Caveat) ([]macaroon.Caveat, error) { return nil, nil }))
+		c.step()
+		errUse(b.Validate(hostileReqs.accs["flyio"]))
+		c.step()
+	})
+	aud(p+"generic", func() {
+		b := parse()
+		c.step()
+		_, _ = b.Verify(ctx, ver)
+		c.step()
+		strs := bundle.Map(b, func(t bundle.Token) string { return t.String() })
+		_ = bundle.Reduce(b, func(n int, t bundle.Token) int { return n + len(t.String()) })
+		toks := bundle.Map(b, func(t bundle.Token) bundle.Token { return t })
+		c.step()
+		_ = bundle.Header(toks...)
+		c.step()
+		_ = bundle.String(toks...)
+		c.step()
+		_ = len(strs)
+		bundle.ForEach(b, func(t *bundle.MalformedMacaroon) { errUse(t.Error()); _ = t.String() })
+		bundle.ForEach(b, func(t *bundle.FailedMacaroon) {
+			errUse(t.Error())
+			_ = t.String()
+			_ = t.Unverified()
+			_ = t.UnsafeMacaroon().Expiration()
+		})
+		bundle.ForEach(b, func(t bundle.NonMacaroon) { _ = t.String() })
+		bundle.ForEach(b, func(t bundle.VerificationResult) { _ = t.Nonce().UUID() })
+	})
 }
 
 // byteOps: operations that take raw token bytes (whether or not they decode)
 func byteOps(c *hCtx, p string, b []byte) {
 	c.op(p+"nonce", func() {
-		if n, err := macaroon.DecodeNonce(b); err == nil {
+		n, err := macaroon.DecodeNonce(b)
+		errUse(err)
+		if err == nil {
 			_ = n.UUID()
 			_ = n.MustEncode()
-			_, _ = json.Marshal(n)
 			_ = flyio.NonceEmail(n)
+			_ = fmt.Sprintf("%v|%+v", n, n)
+			c.step()
+			// audit: the nonce through its JSON form and back, and re-decoded from its own encoding
+			if jb, err := json.Marshal(n); err == nil {
+				var back macaroon.Nonce
+				errUse(json.Unmarshal(jb, &back))
+				_ = back.UUID()
+				_ = back.MustEncode()
+			}
+			c.step()
+			_, err = macaroon.DecodeNonce(append([]byte{0x91}, n.MustEncode()...))
+			errUse(err)
 		}
 	})
 	c.op(p+"pkg.tickets", func() {
-		_, _ = macaroon.TicketsForThirdParty(b, hLoc3)
-		_, _ = macaroon.ThirdPartyTicket(b, hLoc3)
+		_, err := macaroon.TicketsForThirdParty(b, hLoc3)
+		errUse(err)
+		_, err = macaroon.ThirdPartyTicket(b, hLoc3)
+		errUse(err)
 	})
-	c.op(p+"find", func() { _, _, _, _, _ = macaroon.FindPermissionAndDischargeTokens([][]byte{b, hLegit}, hLoc) })
+	c.op(p+"pkg.tickets.noloc", func() { _, err := macaroon.TicketsForThirdParty(b, ""); errUse(err) })
+	c.op(p+"find", func() {
+		_, _, _, _, err := macaroon.FindPermissionAndDischargeTokens([][]byte{b, hLegit}, hLoc)
+		errUse(err)
+	})
+	// audit: the input several times over and on both sides of the legitimate token, under the empty location
+	c.op(p+"find.many", func() {
+		_, _, _, _, _ = macaroon.FindPermissionAndDischargeTokens([][]byte{b, hLegit, b, nil}, "")
+	})
 	// the input in the role of a discharge / an existing discharge / a bind parent of a legitimate token
 	c.op(p+"as.discharge", func() {
 		m, _ := macaroon.Decode(hLegit)
-		_, _ = m.Verify(hKey, [][]byte{b}, map[string][]macaroon.EncryptionKey{hLoc3: {hKA}})
+		_, err := m.Verify(hKey, [][]byte{b}, map[string][]macaroon.EncryptionKey{hLoc3: {hKA}})
+		errUse(err)
 		_ = m.AllThirdPartyTickets(b)
+	})
+	c.op(p+"as.existing", func() {
+		m, _ := macaroon.Decode(hLegit)
+		_ = m.TicketsForThirdParty(hLoc3, nil, b, hLegit)
+	})
+	c.op(p+"as.existing.one", func() {
+		m, _ := macaroon.Decode(hLegit)
+		_, err := m.ThirdPartyTicket(hLoc3, b)
+		errUse(err)
 	})
 	c.op(p+"as.parent", func() {
 		m, _ := macaroon.Decode(hLegit)
-		_ = m.Bind(b)
+		errUse(m.Bind(b))
+		_, _ = m.Encode()
 	})
 	hdr := hdrOf(b)
 	c.op(p+"hdr.parse", func() {
-		_, _ = macaroon.Parse(hdr)
-		_, _, _ = macaroon.ParsePermissionAndDischargeTokens(hdr, hLoc)
-		_, _, _ = flyio.ParsePermissionAndDischargeTokens(hdr)
+		toks, err := macaroon.Parse(hdr)
+		errUse(err)
+		_, _, err = macaroon.ParsePermissionAndDischargeTokens(hdr, hLoc)
+		errUse(err)
+		_, _, err = flyio.ParsePermissionAndDischargeTokens(hdr)
+		errUse(err)
+		_ = toks
+	})
+	// audit: the other way round - the bytes rendered as a header by the library, and read back
+	c.op(p+"hdr.render", func() {
+		h2 := macaroon.ToAuthorizationHeader(b, hLegit)
+		c.step()
+		_, err := macaroon.Parse(h2)
+		errUse(err)
+		c.step()
+		_, _, err = macaroon.ParsePermissionAndDischargeTokens(h2, hLoc)
+		errUse(err)
 	})
 }
 
@@ -554,27 +1145,103 @@ func macOps(c *hCtx, p string, b []byte, deep bool) {
 		return m
 	}
 	trusted := map[string][]macaroon.EncryptionKey{hLoc3: {hKA}}
-	c.op(p+"verify.wrongkey", func() { _, _ = fresh().Verify(hKA, nil, nil) })
-	c.op(p+"verify.selfdischarge", func() { _, _ = fresh().Verify(hKey, [][]byte{b, hLegit}, trusted) })
-	c.op(p+"verify.signed", func() { _, _ = signed().Verify(hKey, [][]byte{b}, trusted) })
+	c.op(p+"verify.wrongkey", func() { _, err := fresh().Verify(hKA, nil, nil); errUse(err) })
+	c.op(p+"verify.selfdischarge", func() { _, err := fresh().Verify(hKey, [][]byte{b, hLegit}, trusted); errUse(err) })
+	c.op(p+"verify.signed", func() { _, err := signed().Verify(hKey, [][]byte{b}, trusted); errUse(err) })
+	// audit: keys of every length (HMAC takes them all), nil and empty discharge entries, the parsed entry point
+	// with the token as its own discharge, trusted-key maps with empty lists and with the token's own location
+	c.op(p+"verify.keys", func() {
+		for _, k := range [][]byte{nil, {}, {1}, bytes.Repeat([]byte{2}, 31), bytes.Repeat([]byte{3}, 33), bytes.Repeat([]byte{4}, 200)} {
+			_, err := fresh().Verify(k, [][]byte{nil, {}, b}, nil)
+			errUse(err)
+			c.step()
+		}
+		m := signed()
+		c.step()
+		tr := map[string][]macaroon.EncryptionKey{hLoc3: {}, m.Location: {hKA, nil}, "": {hKA}}
+		others := []*macaroon.Macaroon{fresh(), signed()}
+		c.step()
+		_, err := m.VerifyParsed(hKey, others, tr)
+		errUse(err)
+		c.step()
+		_, err = m.VerifyParsed(hKey, nil, nil)
+		errUse(err)
+	})
 	c.op(p+"add", func() {
 		m := fresh()
 		a := resset.ActionRead
-		_ = m.Add(&a, &macaroon.ValidityWindow{NotBefore: 1, NotAfter: 2})
+		errUse(m.Add(&a, &macaroon.ValidityWindow{NotBefore: 1, NotAfter: 2}))
 		_, _ = m.Encode()
 	})
 	c.op(p+"add.dup", func() {
 		m := fresh()
-		_ = m.Add(m.UnsafeCaveats.Caveats...)
+		errUse(m.Add(m.UnsafeCaveats.Caveats...))
+		errUse(m.Add())
 	})
 	c.op(p+"add3p", func() {
 		m := fresh()
-		_ = m.Add3P(hKA, "https://other.example", &macaroon.ValidityWindow{NotAfter: 5})
+		errUse(m.Add3P(hKA, "https://other.example", &macaroon.ValidityWindow{NotAfter: 5}))
 		_, _ = m.Encode()
 	})
-	c.op(p+"encode", func() { _, _ = fresh().Encode() })
-	c.op(p+"string", func() { _, _ = fresh().String() })
-	c.op(p+"clone", func() { _, _ = fresh().Clone() })
+	// audit: ONE object through a whole life, calls that fail included (verification under the wrong key, a second
+	// third-party caveat for a location it already has, binding, re-encoding, re-decoding, cloning)
+	c.op(p+"life", func() {
+		m := fresh()
+		c.step()
+		_, err := m.Verify(hKA, nil, nil)
+		errUse(err)
+		c.step()
+		errUse(m.Add3P(hKA, hLoc3))
+		c.step()
+		errUse(m.Add3P(hKA, hLoc3, m.UnsafeCaveats.Caveats...))
+		c.step()
+		a := resset.ActionRead
+		errUse(m.Add(&a))
+		c.step()
+		errUse(m.Bind(hLegit))
+		c.step()
+		errUse(m.BindToParentMacaroon(m))
+		_ = m.Expiration()
+		c.step()
+		enc, err := m.Encode()
+		errUse(err)
+		c.step()
+		if m2, err := macaroon.Decode(enc); err == nil {
+			c.step()
+			_, err = m2.Verify(hKey, [][]byte{enc}, trusted)
+			errUse(err)
+			c.step()
+			_ = m2.AllThirdPartyTickets(enc)
+		} else {
+			errUse(err)
+		}
+		c.step()
+		cl, err := m.Clone()
+		errUse(err)
+		c.step()
+		if cl != nil {
+			errUse(cl.Add(m.UnsafeCaveats.Caveats...))
+			c.step()
+			_, _ = cl.String()
+			c.step()
+		}
+		_, err = m.Verify(hKey, nil, trusted)
+		errUse(err)
+		c.step()
+		_, _ = m.String()
+	})
+	c.op(p+"encode", func() { _, err := fresh().Encode(); errUse(err) })
+	c.op(p+"string", func() {
+		m := fresh()
+		c.step()
+		str, err := m.String()
+		errUse(err)
+		c.step()
+		_, _ = macaroon.Parse(str)
+		c.step()
+		_ = fmt.Sprintf("%v|%+v", m, *m)
+	})
+	c.op(p+"clone", func() { _, err := fresh().Clone(); errUse(err) })
 	c.op(p+"expiration", func() { _ = fresh().Expiration() })
 	c.op(p+"tickets", func() {
 		m := fresh()
@@ -600,27 +1267,64 @@ func macOps(c *hCtx, p string, b []byte, deep bool) {
 				tr[c3.Location] = []macaroon.EncryptionKey{hKA, macaroon.EncryptionKey{}, macaroon.EncryptionKey("short")}
 			}
 		})
-		_, _ = m.Verify(hKey, dis, tr)
-		_, _ = fresh().Verify(hKey, dis, tr)
+		_, err := m.Verify(hKey, dis, tr)
+		errUse(err)
+		_, err = fresh().Verify(hKey, dis, tr)
+		errUse(err)
 	})
 	c.op(p+"tickets.discharge", func() {
 		hWalk(fresh().UnsafeCaveats.Caveats, func(cv macaroon.Caveat) {
 			if c3, ok := cv.(*macaroon.Caveat3P); ok && c3 != nil {
-				if _, dm, err := macaroon.DischargeTicket(hKA, c3.Location, c3.Ticket); err == nil {
+				tcavs, dm, err := macaroon.DischargeTicket(hKA, c3.Location, c3.Ticket)
+				errUse(err)
+				if err == nil {
 					_, _ = dm.Encode()
+					// audit: what the third party does next - checks the ticket's caveats against its request,
+					// attenuates, binds and hands out the discharge
+					c.step()
+					errUse(macaroon.NewCaveatSet(tcavs...).Validate(hostileReqs.accs["dr"], hostileReqs.accs["dr.many"]))
+					c.step()
+					errUse(dm.Add(tcavs...))
+					c.step()
+					errUse(dm.Bind(b))
+					c.step()
+					_, _ = dm.String()
+					c.step()
 				}
-				_, _, _ = macaroon.DischargeTicket(macaroon.EncryptionKey("short"), c3.Location, c3.Ticket)
+				_, _, err = macaroon.DischargeTicket(macaroon.EncryptionKey("short"), c3.Location, c3.Ticket)
+				errUse(err)
+				_, _, err = macaroon.DischargeTicket(nil, "", c3.Ticket)
+				errUse(err)
 			}
 		})
 	})
-	c.op(p+"bind", func() { _ = fresh().Bind(hLegit) })
-	c.op(p+"bind.self", func() { m := fresh(); _ = m.BindToParentMacaroon(fresh()) })
-	c.op(p+"mac.json", func() { _, _ = json.Marshal(fresh()) })
+	c.op(p+"bind", func() { errUse(fresh().Bind(hLegit)) })
+	c.op(p+"bind.self", func() {
+		m := fresh()
+		errUse(m.BindToParentMacaroon(fresh()))
+		c.step()
+		errUse(m.Bind(b)) // audit: through the byte entry point, and with nothing
+		errUse(m.Bind(nil))
+	})
+	c.op(p+"mac.json", func() {
+		jb, err := json.Marshal(fresh())
+		errUse(err)
+		c.step()
+		// audit: and back (the JSON form carries location and caveats only)
+		var back macaroon.Macaroon
+		if err == nil && json.Unmarshal(jb, &back) == nil {
+			c.step()
+			_ = back.Expiration()
+			errUse(back.UnsafeCaveats.Validate(hostileReqs.accs["flyio"]))
+			c.step()
+			_, _ = back.Encode()
+		}
+	})
 	c.op(p+"nonce.uuid", func() { m := fresh(); _ = m.Nonce.UUID(); _ = m.Nonce.MustEncode(); _ = flyio.NonceEmail(m.Nonce) })
 	csOps(c, p+"u.", func() *macaroon.CaveatSet { return &fresh().UnsafeCaveats })
 	// after signature verification: the caveats returned for a token whose tail is right
 	var verr error
-	c.op(p+"sign", func() { _, verr = signed().Verify(hKey, nil, nil) })
+	c.op(p+"sign", func() { _, verr = signed().Verify(hKey, nil, nil); errUse(verr) })
 	if verr == nil && !contains(c.panics, p+"sign") {
 		c.verified = true
 		csOps(c, p+"v.", func() *macaroon.CaveatSet {
@@ -660,6 +1364,80 @@ func hostileTicket(rawCavs []byte) []byte {
 	return aeadSeal(hKA, make([]byte, 12), pt)
 }
 
+// hRN: the discharge key the harness's well-formed tickets carry
+var hRN = bytes.Repeat([]byte{0x33}, 32)
+
+// ticketToken: a token with a valid tail under hKey whose one third-party caveat (location hLoc3) carries the given
+// ticket and a VerifierKey that seals hRN, and a discharge for it: key-id = the ticket, signed with hRN
+func ticketToken(ticket []byte) (tok, dis []byte) {
+	nonce := mpA(mpBn([]byte("legit-kid")), mpBn(bytes.Repeat([]byte{8}, 16)), mpB(false))
+	t0 := hmacSum(hKey, mpEnc(nonce))
+	body := mpA(mpS(hLoc3), mpBn(aeadSeal(t0, bytes.Repeat([]byte{2}, 12), hRN)), mpBn(ticket))
+	tok = mpEnc(mpA(nonce, mpS(hLoc), mpA(mpU(11), body), mpBn(hmacSum(t0, mpEnc(mpA(mpU(11), body))))))
+	dn := mpA(mpBn(ticket), mpBn(bytes.Repeat([]byte{5}, 16)), mpB(false))
+	dis = mpEnc(mpA(dn, mpS(hLoc3), mpA(), mpBn(hmacSum(hRN, mpEnc(dn)))))
+	return
+}
+
+// ticketVerify: verification of such a token with its discharge, the third party trusted (its key opens the
+// key-id of the discharge, i.e. the ticket, and the plaintext is decoded) and not trusted
+func ticketVerify(ticket []byte, mode int) {
+	tok, dis := ticketToken(ticket)
+	m, err := macaroon.Decode(tok)
+	if err != nil {
+		panic("harness: ticket token does not decode: " + err.Error())
+	}
+	switch mode {
+	case 0:
+		cs, err := m.Verify(hKey, [][]byte{dis}, map[string][]macaroon.EncryptionKey{hLoc3: {hKA}})
+		errUse(err)
+		if err == nil {
+			errUse(cs.Validate(hostileReqs.accs["flyio"]))
+		}
+	case 1: // a key that does not open the ticket in front of the one that does
+		_, err = m.Verify(hKey, [][]byte{dis}, map[string][]macaroon.EncryptionKey{hLoc3: {hKey, nil, hKA}})
+		errUse(err)
+	default:
+		_, err = m.Verify(hKey, [][]byte{dis}, nil)
+		errUse(err)
+		_ = m.AllThirdPartyTickets(dis)
+	}
+}
+
+// bunOpsTicket: the same token in a bundle; the bundle's own third-party side opens the ticket
+func bunOpsTicket(c *hCtx, tok, dis []byte) {
+	ctx := context.Background()
+	trusted := map[string][]macaroon.EncryptionKey{hLoc3: {hKA}}
+	ver := bundle.WithKey([]byte("legit-kid"), hKey, trusted)
+	if dis == nil {
+		// the bundle's own third-party side opens the ticket (one decode of the plaintext); the discharge it makes
+		// is not trusted by the verifier below, so verification does not open it again
+		b, err := bundle.ParseBundle(hLoc, hdrOf(tok))
+		errUse(err)
+		_ = b.UndischargedTicketsForThirdParty(hLoc3)
+		c.step()
+		errUse(b.Discharge(hLoc3, hKA, func(cs []macaroon.Caveat) ([]macaroon.Caveat, error) {
+			errUse(macaroon.NewCaveatSet(cs...).Validate(hostileReqs.accs["dr"]))
+			return cs, nil
+		}))
+		c.step()
+		_, err = b.Verify(ctx, bundle.WithKey([]byte("legit-kid"), hKey, nil))
+		errUse(err)
+		c.step()
+		errUse(b.Validate(hostileReqs.accs["flyio"]))
+		_ = b.Header()
+		return
+	}
+	b2, err := bundle.ParseBundle(hLoc, hdrOf(tok, dis))
+	errUse(err)
+	c.step()
+	_, err = b2.Verify(ctx, ver)
+	errUse(err)
+	c.step()
+	errUse(b2.Validate(hostileReqs.accs["flyio"]))
+	_ = b2.UndischargedThirdPartyTickets()
+}
+
 const valueLineMax = 2048
 
 // inputs larger than this skip the bundle round (the same operations, reached through a header)
@@ -669,7 +1447,7 @@ const bigInput = 8192
 // list of panicking operations and the raw allocation figure, for the distribution only)
 func runHostile(in *hIn) (res string, value string, ops string, allocBytes uint64, info string) {
 	b := in.bytes()
-	c := &hCtx{}
+	c := &hCtx{lite: strings.HasPrefix(in.tag, "kinds.") || strings.HasPrefix(in.tag, "sibling.")}
 	// everything the operations on the decoded value allocate, all of them together (cumulative heap allocation:
 	// garbage counts - the property bounds what is allocated, not what is retained)
 	var ms0 runtime.MemStats
@@ -688,8 +1466,13 @@ func runHostile(in *hIn) (res string, value string, ops string, allocBytes uint6
 			c.first = panicLine(pan)
 			break
 		}
-		c.op("ticket", func() { _, _, _ = macaroon.DischargeTicket(hKA, hLoc3, hostileTicket(b)) })
+		c.op("ticket", func() { _, _, err := macaroon.DischargeTicket(hKA, hLoc3, hostileTicket(b)); errUse(err) })
+		// audit: the same ticket inside a token that is presented with a discharge for it - verification then opens
+		// and decodes the ticket itself (trusted third party), whether or not the caveat set in it decodes
+		c.op("ticket.verify", func() { ticketVerify(hostileTicket(b), 0) })
+		c.op("ticket.verify.keys", func() { ticketVerify(hostileTicket(b), 1) })
 		if err != nil {
+			c.op("decode.err", func() { errUse(err) })
 			break
 		}
 		dec = "ok"
@@ -738,6 +1521,7 @@ func runHostile(in *hIn) (res string, value string, ops string, allocBytes uint6
 				c.op("value", func() { value = "ok " + sxMac(m) })
 			}
 		}
+		c.op("decode.err", func() { errUse(err) })
 		byteOps(c, "", b)
 		if dec == "ok" {
 			macOps(c, "", b, len(b) <= bigInput)
@@ -764,10 +1548,66 @@ func runHostile(in *hIn) (res string, value string, ops string, allocBytes uint6
 		})
 		c.op("nonce.unjson", func() {
 			var n macaroon.Nonce
-			if json.Unmarshal(b, &n) == nil {
+			uerr := json.Unmarshal(b, &n)
+			errUse(uerr)
+			c.step()
+			if uerr == nil {
 				_ = n.UUID()
+				_ = n.MustEncode()
+				_ = flyio.NonceEmail(n)
+				if jb, err := json.Marshal(n); err == nil {
+					var back macaroon.Nonce
+					errUse(json.Unmarshal(jb, &back))
+				}
 			}
 		})
+		// audit: the document as a whole token (JSON form: location + caveats), as one caveat body of every
+		// JSON-capable leaf type, and as a request
+		c.op("mac.unjson.direct", func() {
+			var m macaroon.Macaroon
+			uerr := json.Unmarshal(b, &m)
+			errUse(uerr)
+			c.step()
+			if uerr == nil {
+				_, _ = json.Marshal(&m)
+				c.step()
+				_ = m.Expiration()
+				errUse(m.UnsafeCaveats.Validate(hostileReqs.accs["flyio"]))
+				c.step()
+				errUse(m.Add(&macaroon.ValidityWindow{NotAfter: 1}))
+				c.step()
+				_, _ = m.Encode()
+			}
+		})
+		c.op("leaf.unjson", func() {
+			var a resset.Action
+			errUse(json.Unmarshal(b, &a))
+			_ = a.String()
+			c.step()
+			var ip resset.IfPresent
+			if json.Unmarshal(b, &ip) == nil {
+				errUse(ip.Prohibits(hostileReqs.accs["flyio"]))
+				_ = ip.Unwrap()
+				_, _ = json.Marshal(&ip)
+			}
+			c.step()
+			var un macaroon.UnregisteredCaveat
+			if json.Unmarshal(b, &un) == nil {
+				_, _ = json.Marshal(&un)
+				_, _ = macaroon.NewCaveatSet(&un).MarshalMsgpack()
+			}
+			c.step()
+			var g auth.GoogleUserID
+			if json.Unmarshal(b, &g) == nil {
+				_, _ = json.Marshal(&g)
+			}
+			c.step()
+			var acc flyio.Access
+			if json.Unmarshal(b, &acc) == nil {
+				errUse(acc.Validate())
+			}
+		})
+		c.op("decode.err", func() { errUse(err) })
 		if pan != nil || err != nil {
 			break
 		}
@@ -793,6 +1633,73 @@ func runHostile(in *hIn) (res string, value string, ops string, allocBytes uint6
 		if tb != nil {
 			macOps(c, "t.", tb, len(b) <= bigInput)
 		}
+	case "ticket":
+		// the plaintext of a third-party ticket, sealed for hKA with a fixed nonce
+		tk := aeadSeal(hKA, make([]byte, 12), b)
+		var tcavs []macaroon.Caveat
+		var dm *macaroon.Macaroon
+		var err error
+		var pan any
+		alloc, pan = measured(func() { tcavs, dm, err = macaroon.DischargeTicket(hKA, hLoc3, tk) })
+		if pan != nil {
+			dec = "panic"
+			c.panics = append(c.panics, "decode")
+			c.first = panicLine(pan)
+			break
+		}
+		c.op("ticket.verify", func() { ticketVerify(tk, 0) })
+		c.op("ticket.verify.keys", func() { ticketVerify(tk, 1) })
+		c.op("ticket.verify.untrusted", func() { ticketVerify(tk, 2) })
+		c.op("ticket.bundle", func() {
+			tokb, _ := ticketToken(tk)
+			bunOpsTicket(c, tokb, nil)
+		})
+		c.op("ticket.bundle.discharged", func() {
+			tokb, disb := ticketToken(tk)
+			bunOpsTicket(c, tokb, disb)
+		})
+		if err != nil {
+			c.op("decode.err", func() { errUse(err) })
+			break
+		}
+		dec = "ok"
+		hWalk(tcavs, func(macaroon.Caveat) { c.items++ })
+		_ = dm
+		redo := func() ([]macaroon.Caveat, *macaroon.Macaroon) {
+			cs, d, err := macaroon.DischargeTicket(hKA, hLoc3, tk)
+			if err != nil {
+				panic("harness: ticket no longer opens")
+			}
+			return cs, d
+		}
+		c.op("dm", func() {
+			cs, d := redo()
+			c.step()
+			errUse(macaroon.NewCaveatSet(cs...).Validate(hostileReqs.accs["dr"], hostileReqs.accs["dr.many"], hostileReqs.accs["dr.empty"]))
+			c.step()
+			errUse(d.Add(cs...))
+			c.step()
+			errUse(d.Add(&macaroon.ValidityWindow{NotBefore: 1, NotAfter: 2}))
+			c.step()
+			errUse(d.Add3P(hKA, "https://other.example", cs...))
+			c.step()
+			errUse(d.Bind(hLegit))
+			c.step()
+			enc, eerr := d.Encode()
+			errUse(eerr)
+			c.step()
+			if m2, derr := macaroon.Decode(enc); derr == nil {
+				c.step()
+				_, verr := m2.Verify(hKey, nil, nil)
+				errUse(verr)
+				_ = m2.Expiration()
+			} else {
+				errUse(derr)
+			}
+			c.step()
+			_, _ = d.String()
+		})
+		csOps(c, "tc.", func() *macaroon.CaveatSet { cs, _ := redo(); return macaroon.NewCaveatSet(cs...) })
 	case "builtin":
 		// cryptographically CONSISTENT hostile constructions (byte mutation never reaches them), built with the
 		// public API; each runs alone in its own worker
@@ -806,6 +1713,12 @@ func runHostile(in *hIn) (res string, value string, ops string, allocBytes uint6
 	case "hdr":
 		dec = "?"
 		hdr := string(b)
+		if strings.HasPrefix(in.tag, "hdr.many.") {
+			// the many-entry headers of the audit: every ENTRY costs the bundle layer a fixed price whatever its size (a
+			// token object, its error, its strings: ~0.5 KB per pass, for entries of five bytes), like the price per
+			// caveat above; allowance 2 KiB per entry (= 4 KiB per two), for these inputs only
+			c.items = (strings.Count(hdr, ",") + 1) / 2
+		}
 		var toks [][]byte
 		var pan any
 		alloc, pan = measured(func() { toks, _ = macaroon.Parse(hdr) })
@@ -814,9 +1727,42 @@ func runHostile(in *hIn) (res string, value string, ops string, allocBytes uint6
 			c.first = panicLine(pan)
 		}
 		c.op("ppd", func() {
-			_, _, _ = macaroon.ParsePermissionAndDischargeTokens(hdr, hLoc)
-			_, _, _ = flyio.ParsePermissionAndDischargeTokens(hdr)
+			_, _, perr := macaroon.ParsePermissionAndDischargeTokens(hdr, hLoc)
+			errUse(perr)
+			_, _, perr = flyio.ParsePermissionAndDischargeTokens(hdr)
+			errUse(perr)
 			_, _ = macaroon.StripAuthorizationScheme(hdr)
+		})
+		c.op("ppd.more", func() {
+			_, perr := macaroon.Parse(hdr)
+			errUse(perr)
+			c.step()
+			_, _, perr = macaroon.ParsePermissionAndDischargeTokens(hdr, "")
+			errUse(perr)
+		})
+		// audit: what a caller does with the parsed list - sorts it into permission and discharge tokens, verifies
+		// the permission tokens with the rest as discharges, and renders the list as a header again
+		c.op("find.verify", func() {
+			perms, _, _, diss, ferr := macaroon.FindPermissionAndDischargeTokens(toks, hLoc)
+			errUse(ferr)
+			c.step()
+			for i, pm := range perms {
+				if i >= 4 {
+					break
+				}
+				_, verr := pm.Verify(hKey, diss, map[string][]macaroon.EncryptionKey{hLoc3: {hKA}})
+				errUse(verr)
+				c.step()
+				_ = pm.AllThirdPartyTickets(diss...)
+				c.step()
+			}
+		})
+		c.op("reencode", func() {
+			h2 := macaroon.ToAuthorizationHeader(toks...)
+			c.step()
+			t2, rerr := macaroon.Parse(h2)
+			errUse(rerr)
+			_ = len(t2)
 		})
 		bunOps(c, "bun.", hdr, hLoc, []byte("legit-kid"))
 		for i, t := range toks {
@@ -1288,10 +2234,10 @@ func mpExtBeforeMap(b []byte) bool {
 func (g *hGen) add(kind, tag string, data []byte) {
 	// inputs nested beyond the model's budget are marked: the model refuses them by construction, the
 	// library has no budget (F12) - the mark keys that finding
-	if (kind == "cavs" || kind == "mac") && mpMaxDepth(data) > modelBudget {
+	if (kind == "cavs" || kind == "mac" || kind == "ticket") && mpMaxDepth(data) > modelBudget {
 		tag += ".over200"
 	}
-	if (kind == "cavs" || kind == "mac") && mpExtBeforeMap(data) {
+	if (kind == "cavs" || kind == "mac" || kind == "ticket") && mpExtBeforeMap(data) {
 		tag += ".extmap"
 		g.o.count("gen.extmap")
 	}
@@ -1342,7 +2288,37 @@ func (g *hGen) shapeMenu() []*mpNode {
 		mpA(mpA(mpA(mpS("a")), mpB(true))), mpA(mpA(mpNilNode(), mpNilNode())), mpA(mpS("l"), mpBn(nil), mpBn(nil)),
 		mpA(mpA(mpU(4), mpA(mpU(1), mpU(2))), mpU(31)), mpA(mpA(mpU(13), mpA(mpNilNode(), mpU(0))), mpU(0)),
 		mpA(mpA(mpU(13)), mpU(0)), mpA(mpA(mpNilNode(), mpNilNode()), mpU(0)), mpA(mpU(5), mpU(0)),
+		// audit: strings that are not UTF-8, payloads behind 16- and 32-bit length prefixes that are really there,
+		// validity windows at the ends of the int64 range and around time.Time's last second, command lists with
+		// more arguments than any request has / without arguments / nil, containers behind 16-bit headers
+		mpS("\xff\xfe\x00\xc0"), {Kind: mpStr, S: bytes.Repeat([]byte("A"), 300), Code: 0xda}, {Kind: mpBin, S: bytes.Repeat([]byte{0x91}, 20000), Code: 0xc6},
+		mpA(mpU(0), mpU(1<<63-1)), mpA(mpI(-1<<63), mpI(-1)), mpA(mpU(1<<63-1), mpU(0)),
+		mpA(mpU(0), mpU(9223371974719179007)), mpA(mpU(0), mpU(9223371974719179006)),
+		mpA(mpA(mpA(mpS("a"), mpS("b"), mpS("c"), mpS("d")), mpB(true)), mpA(mpA(), mpB(false)), mpA(mpNilNode(), mpNilNode())),
+		hManyMap(17), hManyArr(16), mpA(hManyMap(40)),
 	}
+}
+
+// hRawNest: inner inside k one-element arrays, as verbatim bytes (mpNest + mpEnc copy the encoding once per level)
+func hRawNest(k int, inner *mpNode) *mpNode {
+	return &mpNode{Kind: mpRaw, Raw: append(bytes.Repeat([]byte{0x91}, k), mpEnc(inner)...)}
+}
+
+// hManyMap / hManyArr: containers that need a 16-bit header
+func hManyMap(n int) *mpNode {
+	var kids []*mpNode
+	for i := 0; i < n; i++ {
+		kids = append(kids, mpS(fmt.Sprintf("k%02d", i)), mpU(uint64(i%32)))
+	}
+	return mpM(kids...)
+}
+
+func hManyArr(n int) *mpNode {
+	var kids []*mpNode
+	for i := 0; i < n; i++ {
+		kids = append(kids, mpU(uint64(i)))
+	}
+	return mpA(kids...)
 }
 
 var hRegistered = []uint64{0, 2, 3, 4, 5, 6, 7, 8, 9, 10, 11, 12, 13, 14, 15, 16, 19, 20, 21, 22, 23, 24, 25, 26, 27, 28, 29, 30, 31}
@@ -2178,7 +3154,7 @@ func (g *hGen) repeated() {
 
 // many small caveats that ALL refuse a request: clearing reports every refusal - what that costs must stay
 // proportional to the input (an error value that embeds the text of all earlier ones is quadratic)
-func (g *hGen) manyRefusing() {
+func (g *hGen) manyRefusing(thorough bool) {
 	one := func(c macaroon.Caveat) []byte {
 		b, err := encOne(c)
 		if err != nil {
@@ -2196,6 +3172,9 @@ func (g *hGen) manyRefusing() {
 	}
 	for _, name := range []string{"action0", "org9", "window.ended", "unregistered", "apps.mismatch"} {
 		for _, n := range []int{300, 1500, 4000} {
+			if n == 4000 && !thorough && name != "org9" && name != "unregistered" {
+				continue // quick tier: time (the operation list doubled with the audit); 1500 is far beyond where a quadratic cost shows
+			}
 			b := append([]byte{0xdd}, bePut(4, uint64(2*n))...)
 			for i := 0; i < n; i++ {
 				b = append(b, units[name]...)
@@ -2366,7 +3345,9 @@ func (g *hGen) headers(n int) {
 	pool := detPool()
 	for i := 0; i < n; i++ {
 		var toks [][]byte
-		for j, m := 0, 1+r.Intn(3); j < m; j++ {
+		nTok := pick(r, []int{1, 1, 2, 2, 3, 3, 5, 8, 12})
+		g.o.count(fmt.Sprintf("hdr.tokens.%d", nTok))
+		for j, m := 0, nTok; j < m; j++ {
 			switch r.Intn(3) {
 			case 0:
 				toks = append(toks, pick(r, pool))
@@ -2397,6 +3378,222 @@ func (g *hGen) headers(n int) {
 	}
 }
 
+// ---- audit: third-party tickets (the plaintext; the worker seals it) ----
+
+func (g *hGen) tickets(n int) {
+	menu := g.shapeMenu()
+	key := mpBn(hRN)
+	for _, sh := range menu {
+		g.add("ticket", "ticket.whole", mpEnc(sh))
+		g.add("ticket", "ticket.key", mpEnc(mpA(sh, mpA())))
+		g.add("ticket", "ticket.cavs", mpEnc(mpA(key, sh)))
+		g.add("ticket", "ticket.cavs.body", mpEnc(mpA(key, mpA(mpU(13), sh))))
+	}
+	for k := 0; k <= 4; k++ {
+		kids := []*mpNode{}
+		for i := 0; i < k; i++ {
+			kids = append(kids, mpBn([]byte{byte(i)}))
+		}
+		g.add("ticket", "ticket.arity", mpEnc(mpA(kids...)))
+	}
+	// discharge keys of every length (the discharge is signed with whatever the ticket says)
+	for _, kl := range []int{0, 1, 16, 31, 33, 64, 65, 1000} {
+		g.add("ticket", "ticket.keylen", mpEnc(mpA(mpBn(bytes.Repeat([]byte{7}, kl)), mpA(mpU(26), mpU(31)))))
+	}
+	// map-encoded, with unknown fields, fields in the other order, a field named twice (second value oversized)
+	g.add("ticket", "ticket.map", mpEnc(mpM(mpS("Caveats"), mpA(mpU(26), mpU(1)), mpS("Junk"), mpA(mpNilNode()), mpS("DischargeKey"), key)))
+	g.add("ticket", "ticket.map", mpEnc(mpM(mpS("DischargeKey"), key)))
+	g.add("ticket", "ticket.map", mpEnc(mpM(mpS("dischargekey"), key, mpS("caveats"), mpA())))
+	for _, big := range []uint64{1 << 16, 1 << 24, 1<<32 - 2} {
+		g.add("ticket", "ticket.dupfield.oversize.Caveats.dupfield", mpEnc(mpM(mpS("DischargeKey"), key, mpS("Caveats"), mpA(mpU(26), mpU(1)),
+			mpS("Caveats"), oversizeHeader(mpA(mpU(26), mpU(1)), big))))
+		g.add("ticket", "ticket.dupfield.oversize.DischargeKey.dupfield", mpEnc(mpM(mpS("DischargeKey"), key, mpS("Caveats"), mpA(),
+			mpS("DischargeKey"), oversizeHeader(key, big))))
+	}
+	// announced lengths far beyond the plaintext, at every length-prefixed position
+	hdr := func(code byte, n uint64) []byte { return append([]byte{code}, bePut(4, n)...) }
+	for _, n := range []uint64{17, 65536, 1 << 20, 1<<24 + 2, 1 << 28, 1<<32 - 2} {
+		g.add("ticket", "ticket.oversize.whole", hdr(0xdd, n))
+		g.add("ticket", "ticket.oversize.whole.map", hdr(0xdf, n))
+		g.add("ticket", "ticket.oversize.key", append([]byte{0x92}, hdr(0xc6, n)...))
+		g.add("ticket", "ticket.oversize.key.str", append([]byte{0x92}, hdr(0xdb, n)...))
+		g.add("ticket", "ticket.oversize.cavs", append(append([]byte{0x92}, mpEnc(key)...), hdr(0xdd, n)...))
+		g.add("ticket", "ticket.oversize.cavs.body", append(append([]byte{0x92}, mpEnc(key)...), append([]byte{0x92, 0x11}, hdr(0xc6, n)...)...))
+	}
+	// nesting on both sides of the budget and far beyond, in each field and around the whole
+	for _, k := range []int{1, 100, 196, 197, 198, 199, 200, 201, 202, 1000, 50000} {
+		g.add("ticket", "ticket.deep.whole", mpEnc(hRawNest(k, mpA(key, mpA()))))
+		g.add("ticket", "ticket.deep.key", mpEnc(mpA(hRawNest(k, key), mpA())))
+		g.add("ticket", "ticket.deep.cavs", mpEnc(mpA(key, mpA(mpU(99999), hRawNest(k, mpNilNode())))))
+		g.add("ticket", "ticket.deep.skipped", mpEnc(mpM(mpS("Junk"), hRawNest(k, mpU(1)), mpS("DischargeKey"), key)))
+		if k <= 1000 {
+			ifs := mpA()
+			for i := 0; i < k; i++ {
+				ifs = mpA(mpU(13), mpA(ifs, mpU(31)))
+			}
+			g.add("ticket", "ticket.deep.ifpresent", mpEnc(mpA(key, ifs)))
+		}
+	}
+	// valid tickets, and one structural mutation of them
+	for i := 0; i < n; i++ {
+		cavs, _ := g.validCavs()
+		tree := mpA(key, cavs)
+		if i%4 == 0 {
+			g.add("ticket", "ticket.valid", mpEnc(tree))
+			continue
+		}
+		if tag, ok := g.mutateTree(tree); ok {
+			g.add("ticket", "ticket."+tag, mpEnc(tree))
+		}
+	}
+	g.add("ticket", "ticket.empty", nil)
+}
+
+// ---- audit: nonces in their JSON form (a JSON string holding the base64 of the msgpack nonce) ----
+
+func (g *hGen) jsonNonces() {
+	doc := func(raw []byte) []byte {
+		b, _ := json.Marshal(raw)
+		return b
+	}
+	kid, rnd := mpBn([]byte("kid")), mpBn(bytes.Repeat([]byte{7}, 16))
+	for _, sh := range g.shapeMenu() {
+		if sh.Kind == mpBin && len(sh.S) > 10000 {
+			continue
+		}
+		g.add("json", "json.nonce.whole", doc(mpEnc(sh)))
+		g.add("json", "json.nonce.kid", doc(mpEnc(mpA(sh, rnd, mpB(false)))))
+		g.add("json", "json.nonce.rnd", doc(mpEnc(mpA(kid, sh))))
+		g.add("json", "json.nonce.proof", doc(mpEnc(mpA(kid, rnd, sh))))
+	}
+	for k := 0; k <= 5; k++ {
+		kids := []*mpNode{}
+		for i := 0; i < k; i++ {
+			kids = append(kids, mpBn([]byte{byte(i)}))
+		}
+		g.add("json", "json.nonce.arity", doc(mpEnc(mpA(kids...))))
+	}
+	// over-announced lengths, the same document again and again (what one call allocates must not depend on
+	// the calls before it), and far too deep
+	hdr := func(code byte, n uint64) []byte { return append([]byte{code}, bePut(4, n)...) }
+	for _, n := range []uint64{65536, 1 << 24, 1<<32 - 2} {
+		g.add("json", "json.nonce.oversize", doc(hdr(0xdd, n)))
+		g.add("json", "json.nonce.oversize", doc(append([]byte{0x93}, hdr(0xc6, n)...)))
+		g.add("json", "json.nonce.oversize", doc(append([]byte{0x93, 0xc4, 0x00}, hdr(0xdb, n)...)))
+	}
+	for k := 0; k < 24; k++ {
+		g.add("json", fmt.Sprintf("json.nonce.repeat.kid.%02d", k), doc(append([]byte{0x93}, hdr(0xc6, 1<<30)...)))
+	}
+	for k := 0; k < 24; k++ {
+		g.add("json", fmt.Sprintf("json.nonce.repeat.rnd.%02d", k), doc(append([]byte{0x92, 0xc4, 0x01, 0x6b}, hdr(0xdb, 1<<32-2)...)))
+	}
+	for _, k := range []int{199, 200, 201, 50000} {
+		g.add("json", "json.nonce.deep", doc(mpEnc(hRawNest(k, mpA(kid, rnd)))))
+		g.add("json", "json.nonce.deep", doc(mpEnc(mpA(hRawNest(k, kid), rnd))))
+	}
+	// other spellings of the base64 text
+	valid := mpEnc(mpA(kid, rnd, mpB(true)))
+	std := base64.StdEncoding.EncodeToString(valid)
+	for _, t := range []string{std, strings.TrimRight(std, "="), base64.URLEncoding.EncodeToString(valid), std[:len(std)/2] + "\\n" + std[len(std)/2:],
+		" " + std, std + "=", std + std, "", "=", "A"} {
+		g.add("json", "json.nonce.text", []byte(`"`+t+`"`))
+	}
+}
+
+// ---- audit: whole-token documents, request documents ----
+
+func (g *hGen) jsonDocs(thorough bool) {
+	// numbers of very many digits where a caveat body (or a field of it) is a number
+	lens := []int{200, 20000, 150000}
+	if thorough {
+		lens = append(lens, 700000)
+	}
+	for _, n := range lens {
+		digits := strings.Repeat("1234567890", n/10)
+		for _, t := range []string{"GoogleUserID", "FlyioUserID", "MaxValidity", "17"} {
+			g.add("json", fmt.Sprintf("json.digits.%s.%d", t, n), []byte(`[{"type":"`+t+`","body":`+digits+`}]`))
+		}
+		g.add("json", fmt.Sprintf("json.digits.neg.%d", n), []byte(`[{"type":"GoogleUserID","body":-`+digits+`}]`))
+		g.add("json", fmt.Sprintf("json.digits.window.%d", n), []byte(`[{"type":"ValidityWindow","body":{"not_before":`+digits+`,"not_after":1e`+digits[:6]+`}}]`))
+		g.add("json", fmt.Sprintf("json.digits.orgid.%d", n), []byte(`[{"type":"Organization","body":{"id":`+digits+`,"mask":"r"}}]`))
+		g.add("json", fmt.Sprintf("json.digits.key.%d", n), []byte(`[{"type":"Apps","body":{"apps":{"`+digits+`":"r"}}}]`))
+	}
+	for _, d := range []string{
+		`{"location":"l","caveats":[]}`, `{"location":1,"caveats":[]}`, `{"location":null,"caveats":null}`, `{"location":"l"}`, `{"caveats":{}}`,
+		`{"location":"l","caveats":[{"type":"IfPresent","body":{}}],"caveats":[{"type":"Action","body":"r"}]}`,
+		`{"location":"l","caveats":[{"type":"Action","body":"r"}],"caveats":null}`,
+		`{"LOCATION":"x","CAVEATS":[{"TYPE":"ValidityWindow","BODY":{"NOT_BEFORE":1,"not_after":9223372036854775807}}]}`,
+		`{"location":"l","caveats":[],"Nonce":"AA==","Tail":"AA==","nonce":{"kid":"AA=="},"newProof":true}`,
+		`{"location":"\ud800","caveats":[{"type":"Clusters","body":{"clusters":{"\u0000":"r"}}}]}`,
+		`{"location":"l","caveats":[{"type":"IfPresent","body":{"ifs":[{"type":"3P","body":{"Location":"l","VerifierKey":"","Ticket":""}}],"else":"rwcdC"}}]}`,
+		`{"location":"l","caveats":[{"type":"BindToParentToken","body":""},{"type":"BindToParentToken","body":null},{"type":"GoogleUserID","body":-0}]}`,
+	} {
+		g.add("json", "json.macdoc", []byte(d))
+	}
+	for _, d := range []string{
+		`{"orgid":1,"appid":2,"action":"r"}`, `{"orgid":null,"command":[null,"a"]}`, `{"orgid":1,"command":[]}`, `{"action":"zzz"}`, `{"action":5}`,
+		`{"orgid":-1}`, `{"orgid":1e30}`, `{"orgid":1,"storage_object":1}`, `{"orgid":1,"storage_object":"\ud800"}`, `{"orgid":1,"feature":null,"cluster":"c"}`,
+		`{"ORGID":18446744073709551615,"Machine":"m","machine_feature":"x","command":["a"]}`,
+	} {
+		g.add("json", "json.access", []byte(d))
+	}
+}
+
+// ---- audit: headers with very many entries ----
+//
+// What any operation on the parsed result allocates must stay proportional to the header: rendering the list as a
+// header again, the text of the error that names every bad entry, verification that tries every candidate
+// discharge, the text of the error that names every failed token.
+func (g *hGen) headersMany(ns []int) {
+	tiny := "fm2_" + base64.StdEncoding.EncodeToString(detToken("k", 1, "", false))
+	tokL, disL := ticketToken(hostileTicket([]byte{0x90}))
+	_ = disL
+	// a discharge for that token's ticket signed with the wrong key (each one is tried, each one fails)
+	tk := hostileTicket([]byte{0x90})
+	dn := mpA(mpBn(tk), mpBn(bytes.Repeat([]byte{5}, 16)), mpB(false))
+	badDis := "fm2_" + base64.StdEncoding.EncodeToString(mpEnc(mpA(dn, mpS(hLoc3), mpA(), mpBn(bytes.Repeat([]byte{1}, 32)))))
+	wrongTail := "fm2_" + base64.StdEncoding.EncodeToString(mpEnc(mpA(mpA(mpBn([]byte("legit-kid")), mpBn(bytes.Repeat([]byte{9}, 16)), mpB(false)),
+		mpS(hLoc), mpA(mpU(26), mpU(31)), mpBn(bytes.Repeat([]byte{1}, 32)))))
+	for _, n := range ns {
+		rep := func(unit string) string { return strings.TrimSuffix(strings.Repeat(unit+",", n), ",") }
+		g.add("hdr", fmt.Sprintf("hdr.many.nil-tokens.%d", n), []byte("FlyV1 "+rep("fm2_wA==")))
+		g.add("hdr", fmt.Sprintf("hdr.many.valid.%d", n), []byte("FlyV1 "+rep(tiny)))
+		g.add("hdr", fmt.Sprintf("hdr.many.badbase64.%d", n), []byte("FlyV1 "+rep("fm2_!")))
+		g.add("hdr", fmt.Sprintf("hdr.many.badmacaroon.%d", n), []byte("FlyV1 "+rep("fm1r_wQ==")))
+		g.add("hdr", fmt.Sprintf("hdr.many.nonmacaroon.%d", n), []byte("FlyV1 "+rep("x")))
+		g.add("hdr", fmt.Sprintf("hdr.many.oauth.%d", n), []byte("FlyV1 "+rep("fo1_x")+","+tiny))
+		g.add("hdr", fmt.Sprintf("hdr.many.empty.%d", n), []byte("FlyV1 "+rep("")))
+		g.add("hdr", fmt.Sprintf("hdr.many.pairs.selfdischarged.%d", n/4+1), []byte(strings.TrimSuffix(strings.Repeat(strings.TrimPrefix(hdrOf(hLegit), "FlyV1 ")+",", n/4+1), ",")))
+		g.add("hdr", fmt.Sprintf("hdr.many.candidates.%d", n/2), []byte(hdrOf(tokL)+","+strings.TrimSuffix(strings.Repeat(badDis+",", n/2), ",")))
+		g.add("hdr", fmt.Sprintf("hdr.many.failing.%d", n/2), []byte("FlyV1 "+strings.TrimSuffix(strings.Repeat(wrongTail+",", n/2), ",")))
+	}
+	// k permission tokens that share one ticket x k candidate discharges for that ticket: as k copies of one token
+	// string, and as k different attenuations of it
+	for _, n := range ns {
+		k := 120
+		if n > 3000 {
+			k = 500
+		}
+		perm, _ := macaroon.Decode(hLegit)
+		tkL, _ := perm.ThirdPartyTicket(hLoc3)
+		var junk, atts []string
+		for i := 0; i < k; i++ {
+			jn := mpA(mpBn(tkL), mpBn(append(make([]byte, 8), bePut(8, uint64(i))...)), mpB(false))
+			junk = append(junk, "fm2_"+base64.StdEncoding.EncodeToString(mpEnc(mpA(jn, mpS(hLoc3), mpA(), mpBn(bytes.Repeat([]byte{1}, 32))))))
+			am, _ := macaroon.Decode(hLegit)
+			_ = am.Add(&macaroon.ValidityWindow{NotBefore: int64(i), NotAfter: 1 << 40})
+			ab, _ := am.Encode()
+			atts = append(atts, "fm2_"+base64.StdEncoding.EncodeToString(ab))
+		}
+		copies := strings.TrimSuffix(strings.Repeat(strings.TrimPrefix(hdrOf(hLegit), "FlyV1 ")+",", k), ",")
+		g.add("hdr", fmt.Sprintf("hdr.many.pairs.copies.%d", k), []byte("FlyV1 "+copies+","+strings.Join(junk, ",")))
+		g.add("hdr", fmt.Sprintf("hdr.many.pairs.attenuations.%d", k), []byte("FlyV1 "+strings.Join(atts, ",")+","+strings.Join(junk, ",")))
+	}
+	// schemes over and over (the scheme stripper calls itself once per scheme word)
+	g.add("hdr", "hdr.many.schemes.170000", []byte(strings.Repeat("FlyV1 ", 85000)+strings.Repeat("Bearer ", 85000)+tiny))
+	g.add("hdr", "hdr.many.blanks", []byte("FlyV1"+strings.Repeat(" ", 300000)+tiny+strings.Repeat("\t", 100000)))
+}
+
 // ------------------------------------------------------------------------------------------------
 
 func famHostile(r *Rng, o *Out, tier string) {
@@ -2414,7 +3611,7 @@ func famHostile(r *Rng, o *Out, tier string) {
 	g.deepKinds(tier == "thorough")
 	g.oversize(true)
 	g.repeated()
-	g.manyRefusing()
+	g.manyRefusing(tier == "thorough")
 	g.dupFieldOversize()
 	g.skeletons(1200 * scale)
 	g.unknown(500 * scale)
@@ -2423,7 +3620,15 @@ func famHostile(r *Rng, o *Out, tier string) {
 	g.random(300 * scale)
 	g.jsonMatrix()
 	g.jsonLegit(250 * scale)
+	g.jsonNonces()
+	g.jsonDocs(tier == "thorough")
+	g.tickets(300 * scale)
 	g.headers(300 * scale)
+	if tier == "thorough" {
+		g.headersMany([]int{3000, 20000})
+	} else {
+		g.headersMany([]int{3000})
+	}
 	// dedicated children: inputs whose nesting is proportional to their length (a fatal stack overflow cannot be recovered)
 	t99999 := []byte{0x92, 0xce, 0x00, 0x01, 0x86, 0x9f}
 	g.addRep("cavs", "deepfatal.unreg.arr.over200", t99999, []byte{0x91}, 1000000, []byte{0xc0})
